@@ -127,8 +127,10 @@ func (whCtrl Controller) OpenReader(wareID api.WareID) (io.ReadCloser, error) {
 	switch {
 	case err == nil:
 		return file, nil
-	case os.IsNotExist(err), errors.Is(err, syscall.ENOTDIR):
-		// (ENOTDIR: a regular file sits where one of the chunk directories would be.  The warehouse answered; the ware is not in it.)
+	case os.IsNotExist(err), errors.Is(err, syscall.ENOTDIR), errors.Is(err, syscall.ENXIO), errors.Is(err, syscall.ELOOP), errors.Is(err, syscall.ENAMETOOLONG):
+		// (ENOTDIR: a regular file sits where one of the chunk directories would be.  ENXIO: a socket at the address.
+		//  ELOOP: a symlink cycle at the address.  ENAMETOOLONG: no object can have such a name.
+		//  In each case the warehouse answered; the ware is not in it.)
 		return nil, Errorf(rio.ErrWareNotFound, "ware %s not found in warehouse %s", wareID, whCtrl.addr)
 	default:
 		return nil, Errorf(rio.ErrWarehouseUnavailable, "ware %s could not be retrieved from warehouse %s: %s", wareID, whCtrl.addr, err)
